@@ -384,6 +384,47 @@ def writer_sig(rr, idx):
 # C05 / C09 / C10: histories against a dictionary model
 # ---------------------------------------------------------------------------------------------
 
+_SHARD_PAIRS = {}
+
+
+def shard_pair(algo):
+    """Two short distinct values whose digests share the first 4 hex digits (same content shard dir)."""
+    if algo not in _SHARD_PAIRS:
+        seen = {}
+        i = 0
+        while True:
+            v = b"shard" + str(i).encode()
+            h = L.digest(algo, v).hex()[:4]
+            if h in seen:
+                _SHARD_PAIRS[algo] = (seen[h], v)
+                break
+            seen[h] = v
+            i += 1
+    return _SHARD_PAIRS[algo]
+
+
+def gen_shard_programs(r, n):
+    """remove_hash / remove_fully of one of two contents living in the same shard directory."""
+    progs = []
+    for i in range(n):
+        algo = r.pick(L.ALGOS)
+        a, b = shard_pair(algo)
+        fl = r.pick("sa")
+        ops = [w_oneshot(r.pick("sa"), algo, b"ka", a), w_oneshot(r.pick("sa"), algo, b"kb", b)]
+        steps = [(0, "write", b"ka", algo, a), (1, "write", b"kb", algo, b)]
+        if r.chance(0.5):
+            ops.append(f"remove_hash {fl} c0 {sri_tok(algo, a)}"); steps.append((len(ops) - 1, "remove_hash", None, algo, a))
+        else:
+            ops.append(f"remove_fully {fl} c0 {hx(b'ka')}"); steps.append((len(ops) - 1, "remove_fully", b"ka", None, None))
+        for kk in (b"ka", b"kb"):
+            for of in "sa":
+                ops.append(f"read {of} c0 {hx(kk)}"); steps.append((len(ops) - 1, "read", kk, None, None))
+        ops.append(f"exists s c0 {sri_tok(algo, b)}")
+        ops.append("list c0"); steps.append((len(ops) - 1, "list", None, None, None))
+        progs.append(Program(f"shard{i}", ops, tags={"steps": steps, "keys": [b"ka", b"kb"], "variety": ("shard", algo, fl)}))
+    return progs
+
+
 def gen_history_programs(r, n, maxlen=25, removals=True, full=False):
     progs = []
     for i in range(n):
@@ -1093,11 +1134,13 @@ def gen_linkto_programs(r, n):
             ops.append(f"lcommit {l}")
         elif mode == "opts_bad_size":
             l = ids.new("L")
-            ops.append(f"lopen {fl} c0 {l} {hx(key)} {tgt} algo=sha256 size={len(d) + 1} sri=-")
+            kk = hx(key) if r.chance(0.6) else "-"
+            ops.append(f"lopen {fl} c0 {l} {kk} {tgt} algo=sha256 size={len(d) + 1} sri=-")
             ops.append(f"lcommit {l}")
         else:
             l = ids.new("L")
-            ops.append(f"lopen {fl} c0 {l} {hx(key)} {tgt} algo=sha256 size=- sri={hx(L.sri_of('sha256', d + b'x').encode())}")
+            kk = hx(key) if r.chance(0.6) else "-"
+            ops.append(f"lopen {fl} c0 {l} {kk} {tgt} algo=sha256 size=- sri={hx(L.sri_of('sha256', d + b'x').encode())}")
             ops.append(f"lcommit {l}")
         link = len(ops) - 1
         st = sri_tok("sha256", d)
@@ -1301,6 +1344,18 @@ def gen_hostile_state_programs(r, n):
                     f"hard_link {fl} c0 {kb} out/h{fl}{i}", f"ropen {fl} c0 R{2 * i + fi + 1} {kb}"]
         ops += [f"remove_fully s c0 {kb}", "list c0", w_oneshot("s", "sha256", k.encode(), b"v"), f"read a c0 {kb}"]
         progs.append(Program(f"foreign-{name}", ops, tags={"foreign_integrity": name, "variety": name}))
+    # a valid entry followed by a foreign record for the SAME key (sync and async lookups must agree;
+    # `find` keeps the earlier entry when the later integrity does not parse)
+    for i, (name, integ) in enumerate(kinds):
+        k = f"vk{i}".encode()
+        d = b"valid " + name.encode()
+        fr = L.frame(L.record_json(k.decode(), integ, 99, 0, None, None))
+        ops = [w_oneshot("s", "sha256", k, d), f"append c0/{L.bucket_rel(k)} {hx(fr)}"]
+        for fi, fl in enumerate("sa"):
+            ops += [f"metadata {fl} c0 {hx(k)}", f"read {fl} c0 {hx(k)}", f"copy {fl} c0 {hx(k)} out/v{fl}{i}",
+                    f"hard_link {fl} c0 {hx(k)} out/w{fl}{i}"]
+        ops += ["list c0", w_oneshot("a", "sha256", k, d + b"2"), f"read s c0 {hx(k)}"]
+        progs.append(Program(f"foreign-after-valid-{name}", ops, tags={"foreign_integrity": name, "variety": ("after", name)}))
     # wrong node kinds where files are expected
     for j, (what, mk) in enumerate([
             ("dir_at_bucket", lambda: [f"mkdir c0/{L.bucket_rel(b'k')}"]),
